@@ -25,6 +25,14 @@ theorem last_seq_monotone (cfg : Cfg) (hcfg : 0 < cfg.memTableSize) (ops : List 
 example : stamps (init { memTableSize := 30 }) [.put [1] [1], .batch [(false, [2], [2]), (true, [1], [])], .flush, .reopen, .del [3]]
     = [1, 2, 3] := by decide
 
+/-- the configuration in which the newest log file is never reused (`freshLog`: cfg.WALMaxSize reached, wal.ReuseWAL returns
+    nil, the storage manager starts a new file at every open) is inside the theorems above — they hold for every `cfg`; here
+    the restart really starts a second file and the numbers continue -/
+example : (engRun (init { memTableSize := 1000, freshLog := true }) [.put [1] [1], .reopen, .put [2] [2]]).wal.map (·.map (·.seq))
+    = [[1], [2]] := by decide
+example : stamps (init { memTableSize := 30, freshLog := true }) [.put [1] [1], .reopen, .put [2] [2], .reopen, .reopen, .del [1]]
+    = [1, 2, 3] := by decide
+
 /-! ### log retention (pkg/wal/retention.go, driven by replica acknowledgements) and the counter
 
   The counter is restored at start-up from the greatest number found in the log directory. `WAL.ManageRetention` deletes
